@@ -233,11 +233,16 @@ def dag_prog(rng, name, nnodes, with_broadcast, tier):
     n = prod(shape)
     nodes = []      # names
     shp = {}        # name -> shape
+    class UB(dict):
+        # upper bound on |element|: sin / cos are applied only to moderate values (their conditioning grows with
+        # |x|, and libm results differ in the last ulp between Go and glibc); unknown names count as small constants
+        def __missing__(self, k): return 3.0
+    ub = UB()
     nleaves = rng.randint(1, 3)
     for j in range(nleaves):
         tracked = (j == 0) or rng.random() < 0.7
         t = p.tensor(shape, [rng.uniform(0.5, 1.5) for _ in range(n)], tracked=tracked)
-        nodes.append(t); shp[t] = list(shape)
+        nodes.append(t); shp[t] = list(shape); ub[t] = 1.5
     leaves = list(nodes)
     used = {}
     def pick():
@@ -255,16 +260,24 @@ def dag_prog(rng, name, nnodes, with_broadcast, tier):
         sa = shp[a]
         r = None
         if kind < 0.18:
-            r = p.bind('%s %s' % (rng.choice(SAFE_UN), a)); shp[r] = list(sa)
+            fn = rng.choice(['sin', 'cos', 'tanh']) if ub[a] <= 40 else 'tanh'
+            r = p.bind('%s %s' % (fn, a)); shp[r] = list(sa); ub[r] = 1.0
         elif kind < 0.25:
-            r = p.bind('scale %s %s' % (a, f2b(rng.choice([0.5, -1.0, 2.0, 1.25])))); shp[r] = list(sa)
+            c = rng.choice([0.5, -1.0, 2.0, 1.25])
+            r = p.bind('scale %s %s' % (a, f2b(c))); shp[r] = list(sa); ub[r] = abs(c) * ub[a]
         elif kind < 0.29:
-            r = p.bind('pow %s %s' % (a, f2b(2.0))); shp[r] = list(sa)
+            if ub[a] > 1e3:
+                r = p.bind('tanh %s' % a); ub[r] = 1.0
+            else:
+                r = p.bind('pow %s %s' % (a, f2b(2.0))); ub[r] = ub[a] ** 2
+            shp[r] = list(sa)
         elif kind < 0.60:
             b = same_shape(a)
             op = rng.choice(['add', 'sub', 'mul', 'add', 'mul', 'elmax'])
             if op == 'elmax' and b == a: op = 'add'
+            if op == 'mul' and ub[a] * ub[b] > 1e6: op = 'add'
             r = p.bind('%s %s %s' % (op, a, b)); shp[r] = list(sa)
+            ub[r] = ub[a] * ub[b] if op == 'mul' else (max(ub[a], ub[b]) if op == 'elmax' else ub[a] + ub[b])
         elif kind < 0.70 and sa:
             # concat of 2-3 operands, possibly the same one twice, possibly an untracked constant first
             d = rng.randrange(len(sa))
@@ -284,20 +297,21 @@ def dag_prog(rng, name, nnodes, with_broadcast, tier):
             # a non-uniform weighting so that block mix-ups become visible
             w = p.tensor(rs, [0.5 + 0.25 * (i % 7) for i in range(prod(rs))]); shp[w] = rs
             r2 = p.bind('mul %s %s' % (r, w)); shp[r2] = rs
+            ub[r] = max(ub[x] for x in ops); ub[r2] = 2.0 * ub[r]
             nodes.append(r); r = r2
         elif kind < 0.76 and sa:
             idx = rand_index(rng, sa)
-            r = p.bind('slice %s %s' % (a, ranges(idx))); shp[r] = sliced_shape(sa, idx); p.tag('slice')
+            r = p.bind('slice %s %s' % (a, ranges(idx))); shp[r] = sliced_shape(sa, idx); p.tag('slice'); ub[r] = ub[a]
         elif kind < 0.80 and sa:
             d = rng.randrange(len(sa))
-            r = p.bind('%salong %s %d' % (rng.choice(['sum', 'mean', 'avg']), a, d)); shp[r] = sa[:d] + sa[d + 1:]; p.tag('reduce')
+            r = p.bind('%salong %s %d' % (rng.choice(['sum', 'mean', 'avg']), a, d)); shp[r] = sa[:d] + sa[d + 1:]; p.tag('reduce'); ub[r] = ub[a] * sa[d]
         elif kind < 0.84:
             f = rng.choice(factorizations(prod(sa), 3))
-            r = p.bind('reshape %s %s' % (a, ints(f))); shp[r] = list(f); p.tag('reshape')
+            r = p.bind('reshape %s %s' % (a, ints(f))); shp[r] = list(f); p.tag('reshape'); ub[r] = ub[a]
         elif kind < 0.88 and len(sa) >= 2:
-            r = p.bind('transpose %s' % a); shp[r] = sa[:-2] + [sa[-1], sa[-2]]; p.tag('transpose')
-            if rng.random() < 0.5:
-                m = p.bind('matmul %s %s' % (a, r)); shp[m] = sa[:-2] + [sa[-2], sa[-2]]
+            r = p.bind('transpose %s' % a); shp[r] = sa[:-2] + [sa[-1], sa[-2]]; p.tag('transpose'); ub[r] = ub[a]
+            if rng.random() < 0.5 and ub[a] < 1e3:
+                m = p.bind('matmul %s %s' % (a, r)); shp[m] = sa[:-2] + [sa[-2], sa[-2]]; ub[m] = ub[a] * ub[a] * sa[-1]
                 nodes.append(r); used[r] = 1; r = m; p.tag('matmul')
         elif kind < 0.92 and sa:
             # patch a block of `a` with a slice of another same-shape node
@@ -305,17 +319,18 @@ def dag_prog(rng, name, nnodes, with_broadcast, tier):
             blk = [(0, rng.randint(1, sa[0]))]
             s_ = p.bind('slice %s %s' % (b, ranges(blk))); shp[s_] = sliced_shape(sa, blk)
             r = p.bind('patch %s %s %s' % (a, ranges(blk if rng.random() < 0.5 else []), s_)) if blk[0][1] == sa[0] or True else None
-            shp[r] = list(sa); nodes.append(s_); p.tag('patch')
+            shp[r] = list(sa); nodes.append(s_); p.tag('patch'); ub[s_] = ub[b]; ub[r] = max(ub[a], ub[b])
         elif with_broadcast and sa:
             d = rng.randrange(len(sa))
             s_ = p.bind('sumalong %s %d' % (a, d)); shp[s_] = sa[:d] + sa[d + 1:]
             u = p.bind('unsqueeze %s %d' % (s_, d)); shp[u] = sa[:d] + [1] + sa[d + 1:]
             r = p.bind('mul %s %s' % (a, u)); shp[r] = list(sa)      # implicit expansion of u
+            ub[s_] = ub[a] * sa[d]; ub[u] = ub[s_]; ub[r] = ub[a] * ub[u]
             nodes.append(s_); nodes.append(u)
             p.tag('has-broadcast')
         else:
             b = same_shape(a)
-            r = p.bind('mul %s %s' % (a, b)); shp[r] = list(sa)
+            r = p.bind('add %s %s' % (a, b)); shp[r] = list(sa); ub[r] = ub[a] + ub[b]
         nodes.append(r)
     fan = sum(1 for v in used.values() if v > 1)
     p.tag('fanout%d' % min(fan, 5), 'nodes%d' % (10 * (nnodes // 10)))
@@ -398,7 +413,7 @@ def gen_C08(rng, tier):
             elif k < 0.55:
                 a, b = rng.choice(live), rng.choice(live)
                 kind = rng.choice(['un', 'bin', 'cmp', 'cat', 'elmax'])
-                if kind == 'un': r = p.bind('%s %s' % (rng.choice(SAFE_UN + ['exp']), a))
+                if kind == 'un': r = p.bind('%s %s' % (rng.choice(['sin', 'cos', 'tanh']), a))
                 elif kind == 'bin': r = p.bind('%s %s %s' % (rng.choice(['add', 'sub', 'mul']), a, b))
                 elif kind == 'cmp': r = p.bind('%s %s %s' % (rng.choice(['eq', 'ne', 'gt', 'ge', 'lt', 'le']), a, b))
                 elif kind == 'elmax': r = p.bind('%s %s %s' % (rng.choice(['elmax', 'elmin']), a, b))
